@@ -1407,6 +1407,12 @@ impl Core {
 		self.write_stall.signal_shutdown();
 		log::debug!("Write stall shutdown signal sent");
 
+		// Step 2b: let the commits that are already in flight finish, so that
+		// everything acknowledged is in the memtables and the commit log before
+		// they are flushed / closed below.
+		self.commit_pipeline.drain().await;
+		log::debug!("Commit pipeline drained");
+
 		// Step 3: Wait for and stop all background tasks
 		let task_manager = self.task_manager.lock().unwrap().take();
 		if let Some(task_manager) = task_manager {
